@@ -8,7 +8,8 @@ symbolic.
 the parser keeps between parses of one process is part of the claim.
 
 LIBS is also the family of the concrete stages of props/c27.py (fresh-process assembly sequences, structural
-comparison of the merged trees, directory / library_folders walks of the CasADi API)."""
+comparison of the merged trees, directory / library_folders walks of the CasADi API); c27.py reads it from
+this file's source with ast.literal_eval, so it must stay a plain literal."""
 import contextlib
 import itertools
 import pickle
@@ -110,8 +111,7 @@ LIB = PIN.get("lib", "pkgconst")
 FILES, NAMES = LIBS[LIB]
 PERMS = list(itertools.permutations(range(len(FILES))))
 _PARSED = []
-# pin parse=0: the concrete stages of c27.py only read LIBS and must find a parser that has not parsed anything yet
-for _txt in (FILES if PIN.get("parse", 1) else []):  # at import time: ANTLR never runs under tracing
+for _txt in FILES:  # at import time: ANTLR never runs under tracing
     _t = parser.parse(_txt, bypass_cache=True)
     if _t is None:
         raise ValueError("library file does not parse: " + _txt[:40])
